@@ -270,6 +270,10 @@ def logoutTargets (cfg : Cfg) (s : St) (user : Str) : List Nat :=
   (s.grants.filter (fun g => g.user = user ∧ cfg.logoutUri g.client ∧
       s.grants.any (fun g' => g'.user = user ∧ g'.client = g.client ∧ hasIdToken s g'))).map (·.id)
 
+/-- the scope of a token from the client-credentials or the password grant: what the client's record
+    lists under `allowed_scopes` — nothing when there is no such entry (NOT the provider's default) -/
+def configuredScope (allowedInRecord : Option (List Str)) : List Str := allowedInRecord.getD []
+
 def step (cfg : Cfg) (s : St) : Op → St × Out
   | .tick n => ({ s with now := s.now + n }, .ok)
   | .authorize user client scope redirect =>
